@@ -11,6 +11,12 @@
  *        <r>u<p>  process r: parsec_taskpool_unregister(pool p)   -> u
  *        <r>l<i>  process r: parsec_taskpool_lookup(i)            -> p<k> | - | z (slot 0, not a pool) | ? (unknown pointer)
  *        S        all processes: parsec_taskpool_sync_ids()       -> S
+ *        <r>h<p>  process r: a helper thread will reserve and register pool p while the main thread is
+ *                 inside the collective of the next S.  The MPI_Allreduce stand-in releases the helper and
+ *                 gives it 25 ms (after it has started) to finish.  After the S the process prints
+ *                 "H:in" (the helper finished inside the collective: the table was not locked across it) or
+ *                 "H:after" (it had to wait for the end of the sync, as with the lock held), then i<id> g<id>
+ *                 for every helper pool
  *      prints "r0: ... | r1: ..." ; a process that dies prints CRASH and nothing more.
  *      The collective inside parsec_taskpool_sync_ids_context is MPI_Allreduce(MPI_MAX);
  *      this executable defines MPI_Initialized / MPI_Allreduce itself (they take
@@ -22,6 +28,7 @@
 #include <mpi.h>
 #include <unistd.h>
 #include <pthread.h>
+#include <time.h>
 #include <sys/wait.h>
 #include <sys/mman.h>
 #include "parsec/runtime.h"
@@ -32,9 +39,21 @@
 static int up_fd = -1, down_fd = -1;
 
 int MPI_Initialized(int *flag) { *flag = 1; return MPI_SUCCESS; }
+/* ---- a second thread of the same process, released in the middle of a sync ---- */
+#define MAXH 64
+static long hp[MAXH], hid[MAXH], hgid[MAXH]; static int nhp;
+static volatile int h_armed, h_go, h_started, h_done, h_inside;
+static void msleep_us(long us) { struct timespec ts = { us / 1000000, (us % 1000000) * 1000L }; nanosleep(&ts, NULL); }
+
 int MPI_Allreduce(const void *sbuf, void *rbuf, int count, MPI_Datatype dt, MPI_Op op, MPI_Comm comm)
 {
     int v = *(int *)rbuf; (void)sbuf; (void)count; (void)dt; (void)op; (void)comm;
+    if (h_armed) {
+        h_armed = 0; __sync_synchronize(); h_go = 1;
+        for (int i = 0; i < 20000 && !h_started; i++) msleep_us(100);      /* up to 2 s to get scheduled */
+        for (int i = 0; i < 250 && !h_done; i++) msleep_us(100);           /* 25 ms to finish */
+        h_inside = h_done;
+    }
     if (write(up_fd, &v, sizeof v) != sizeof v) _exit(3);
     if (read(down_fd, &v, sizeof v) != sizeof v) _exit(3);
     *(int *)rbuf = v;
@@ -54,18 +73,47 @@ static void out(int fd, const char *fmt, long v)
     if (write(fd, b, n) != n) _exit(5);
 }
 
+static parsec_taskpool_t *pool(long p);
+static void *helper(void *arg)
+{
+    (void)arg;
+    while (!h_go) msleep_us(50);
+    h_started = 1; __sync_synchronize();
+    for (int i = 0; i < nhp; i++) {
+        hid[i] = parsec_taskpool_reserve_id(pool(hp[i]));
+        hgid[i] = parsec_taskpool_register(pool(hp[i]));
+    }
+    __sync_synchronize(); h_done = 1;
+    return NULL;
+}
+
 /* one simulated process: walk the token list, do the operations of rank me */
 static void child(int me, char *toks, int ofd)
 {
     char *sv, *t;
     for (t = strtok_r(toks, " ", &sv); t; t = strtok_r(NULL, " ", &sv)) {
-        if (t[0] == 'S') { parsec_taskpool_sync_ids(); out(ofd, " S", 0); continue; }
+        if (t[0] == 'S') {
+            pthread_t th;
+            if (nhp > 0) {
+                h_go = h_started = h_done = h_inside = 0; __sync_synchronize();
+                pthread_create(&th, NULL, helper, NULL); h_armed = 1;
+            }
+            parsec_taskpool_sync_ids(); out(ofd, " S", 0);
+            if (nhp > 0) {
+                pthread_join(th, NULL);
+                out(ofd, h_inside ? " H:in" : " H:after", 0);
+                for (int i = 0; i < nhp; i++) { out(ofd, " i%ld", hid[i]); out(ofd, " g%ld", hgid[i]); }
+                nhp = 0;
+            }
+            continue;
+        }
         char *e; long r = strtol(t, &e, 10); char k = *e; long a = strtol(e + 1, NULL, 10);
         if (r != me) continue;
         switch (k) {
         case 'r': out(ofd, " i%ld", parsec_taskpool_reserve_id(pool(a))); break;
         case 'g': out(ofd, " g%ld", parsec_taskpool_register(pool(a))); break;
         case 'u': parsec_taskpool_unregister(pool(a)); out(ofd, " u", 0); break;
+        case 'h': (void)pool(a); if (nhp < MAXH) hp[nhp++] = a; break;
         case 'l': {
             parsec_taskpool_t *tp = parsec_taskpool_lookup((uint32_t)a); long k2 = -1;
             for (long i = 0; i < MAXP && tp; i++) if (pools[i] == tp) { k2 = i; break; }
